@@ -317,6 +317,8 @@ def eval_case(case):
         return eval_hash(case)
     if case["sub"] == "scripted":
         return eval_scripted(case)
+    if case["sub"] == "reject-run":
+        return eval_reject_run(case)
     return eval_sampling(case)
 
 
@@ -333,6 +335,8 @@ def shards(ctx):
         for k in range(parts):
             out.append({"sub": "sampling", "routine": name, "part": k, "parts": parts})
     out.append({"sub": "scripted"})
+    for name in ROUTINES:
+        out.append({"sub": "reject-run", "routine": name})
     return out
 
 
@@ -364,7 +368,33 @@ def eval_scripted(case):
     return msgs
 
 
+def eval_reject_run(case):
+    """the first k requests of the routine are answered with all-ones bytes (rejected by every sampler), k = 1..40"""
+    menu, default = menus(case["seed"])
+    msgs = []
+    for cfg in CONFIGS:
+        L = ffi.lib(cfg)
+        st = envexp.RunStream(case["k"], default)
+        obs = run_routine(L, case["routine"], st)
+        if st.overrun:
+            msgs.append("%s: did not terminate within %d requests" % (cfg, st.horizon))
+            continue
+        msgs += ["%s: %s" % (cfg, m) for m in postconditions(L, case["routine"], obs, cfg == "asm" and case["k"] in (1, 13, 40))]
+        st2 = envexp.RunStream(case["k"], default)
+        if run_routine(L, case["routine"], st2) != obs:
+            msgs.append("%s: not deterministic for the same random stream" % cfg)
+    return msgs
+
+
 def run_shard(ctx, shard):
+    if shard["sub"] == "reject-run":
+        for k in range(1, 41):
+            case = {"sub": "reject-run", "routine": shard["routine"], "k": k, "seed": ctx.seed}
+            msgs = eval_reject_run(case)
+            ctx.ok(True, "reject-run", n=len(CONFIGS))
+            if msgs:
+                ctx.fail(case, "%s after %d rejected answers: %s" % (shard["routine"], k, "; ".join(msgs[:3])), sig="reject-run:" + shard["routine"])
+        return
     if shard["sub"] == "hash":
         kind = shard["kind"]
         if kind == "scalar":
@@ -435,10 +465,14 @@ def replay(ctx, case):
 
 def finish(merged, cov):
     o = merged.outcomes
-    for need in ("hash:scalar:scalar", "hash:g1:all-zero", "hash:g2:top-bits", "hash:id:all-zero", "sampling:g1_random:dev2", "sampling:g2_random:dev2",
-                 "sampling:random_zpstar_powers:dev2", "sampling:gt_multiply_random:dev1", "hash:g1:miss-run-19", "hash:g1:miss-run-16", "hash:g2:miss-run-18", "hash:id:miss-run-16"):
+    for need in ("hash:scalar:scalar", "hash:g1:all-zero", "hash:g2:top-bits", "hash:id:all-zero", "reject-run", "hash:g1:miss-run-19", "hash:g1:miss-run-16", "hash:g2:miss-run-18", "hash:id:miss-run-16"):
         if not o.get(need):
             return "outcome class %s never exercised" % need
+    # every sampler must have been run under deviating answers; HOW MANY deviations fit into its first requests depends on the way the
+    # library consumes the random source (one large request leaves room for one), which the property does not fix
+    for routine in ("g1_random", "g2_random", "random_zpstar_powers", "gt_multiply_random"):
+        if not any(k.startswith("sampling:%s:dev" % routine) and not k.endswith(":dev0") and v for k, v in o.items()):
+            return "sampler %s never run under a deviating answer" % routine
     if not any(k.startswith("hash:g1:miss-run") for k in o):
         return "no miss runs exercised"
     cov["states"] = merged.evaluations
